@@ -1,4 +1,5 @@
 import PPLV.Solver.PIPCoreTree
+import PPLV.Solver.PIPCoreSem
 
 /-! `pplv_pipcore`: replays the journal of `harness/c07_core.cc` (grammar there).
 
@@ -8,6 +9,8 @@ be the same tree as the real one: same shape, same artificial parameters and con
 (rows compared modulo trailing zeros), same FINAL tableau / basis / mapping / var_row / var_column / sign
 in every solution node.  Then the conclusions of the theorems are judged on the REAL tree:
 
+* every solution node is coherent (`PIP_Solution_Node::OK`, the `WF` of the theorems) and its columns are
+  lexico-non-negative (`LexPos`, the invariant of `C07.solve_step_invariant`);
 * every solution node without cut rows describes the same affine set as the root tableau
   (each of its row equations is an identity once the row variables of the root are substituted);
 * at every parameter valuation of the box that satisfies the initial context: `Tree.eval` of the real tree
@@ -131,6 +134,25 @@ def rowIdentity (root fin : SolNode) (i : Nat) : Option Bool := do
       aq := addScaled aq (-c) fq
   aq := addScaled aq (-root.tab.den) (mrow fin.tab.t i)
   pure (ax.all (· == 0) && aq.all (· == 0))
+
+/-! ### the lexicographic invariant on a (real) final node -/
+
+def lexNonnegColB : List Row → Nat → Bool
+  | [], _ => true
+  | r :: rs, j => decide (0 < rget r j) || (rget r j == 0 && lexNonnegColB rs j)
+
+/-- `LexPos` (every column of the full matrix is lexico-non-negative), decided -/
+def lexPosB (nd : SolNode) : Bool := (List.range nd.tab.ns).all fun j => lexNonnegColB (fullRows nd) j
+
+/-- `PIP_Solution_Node::OK()` on the journalled members (`WF` without the proofs) -/
+def wfB (nd : SolNode) : Bool :=
+  nd.tab.s.length == nd.tab.t.length && nd.tab.s.all (·.length == nd.tab.ns) && nd.tab.t.all (·.length == nd.tab.nt)
+  && decide (0 < nd.tab.den) && nd.varRow.length == nd.tab.s.length && nd.varColumn.length == nd.tab.ns
+  && nd.sign.length == nd.tab.s.length && nd.mapping.length == nd.tab.s.length + nd.tab.ns
+  && nd.basis.length == nd.mapping.length
+  && (List.range nd.mapping.length).all fun k =>
+      if boolGet nd.basis k then natGet nd.mapping k < nd.tab.ns && natGet nd.varColumn (natGet nd.mapping k) == k
+      else natGet nd.mapping k < nd.tab.s.length && natGet nd.varRow (natGet nd.mapping k) == k
 
 /-! ### evaluation at a valuation, with the node reached -/
 
@@ -341,6 +363,10 @@ def judge (c : Case) (box window fuel ccfuel : Nat) (dump : Bool := false) : IO 
     match real with
     | some t =>
       for nd in solNodes t do
+        if !wfB nd then
+          IO.println s!"MISMATCH {id} real:node_ok basis/mapping/var_row/var_column-or-matrix-shapes-incoherent"; fine := false
+        else if !lexPosB nd then
+          IO.println s!"MISMATCH {id} real:lexpos a-column-of-the-final-tableau-is-lexico-negative"; fine := false
         if nd.tab.s.length == nr0 && nd.mapping.length == root.mapping.length then
           for i in List.range nr0 do
             match rowIdentity root nd i with
